@@ -35,6 +35,23 @@ def main():
             if ok0 and bad1:
                 note = "the demonstration must run under --release (overflow checks off): it passes in the debug profile; confirmed here with cargo test --release (passes without the patch, fails with it); see notes.md"
                 m["ran"].append("cargo test --offline --release --test demo_seeded (unpatched: ok; patched: FAILED)")
+            if note is None:
+                # weak-memory / aliasing faults: only Miri sees them
+                subprocess.run("git checkout -q -- . 2>/dev/null; patch -s -R -p1 --no-backup-if-mismatch < %s" % os.path.join(os.path.abspath(src), "patch.diff"), cwd=base, shell=True)
+                menv = dict(env, MIRIFLAGS=os.environ.get("MIRIFLAGS", "-Zmiri-many-seeds=0..16"))
+                cmd = "cargo +nightly miri test --offline --test demo_seeded 2>&1"
+                m0 = subprocess.run(cmd, cwd=base, shell=True, capture_output=True, text=True, env=menv)
+                subprocess.run("patch -s -p1 --no-backup-if-mismatch < %s" % os.path.join(os.path.abspath(src), "patch.diff"), cwd=base, shell=True)
+                m1 = subprocess.run(cmd, cwd=base, shell=True, capture_output=True, text=True, env=menv)
+                ok0 = m0.returncode == 0 and "Undefined Behavior" not in m0.stdout
+                bad1 = m1.returncode != 0 and (("Undefined Behavior" in m1.stdout) or ("data race" in m1.stdout.lower()) or ("FAILED" in m1.stdout) or ("panicked" in m1.stdout))
+                if ok0 and bad1:
+                    note = ("the demonstration fails only under Miri (weak-memory / data-race detection): MIRIFLAGS=%s cargo +nightly miri test --test demo_seeded "
+                            "passes without the patch and reports an error with it; see notes.md" % menv["MIRIFLAGS"])
+                    m["ran"].append("cargo +nightly miri test --offline --test demo_seeded (unpatched: ok; patched: error reported)")
+                else:
+                    m["miri_unpatched"] = m0.stdout[-400:]
+                    m["miri_patched"] = m1.stdout[-400:]
         finally:
             shutil.rmtree(tmp, ignore_errors=True)
     confirmed = {k: m.get(k) for k in ("patch_applies", "suite_passes_with_patch", "demo_passes_without_patch", "demo_fails_with_patch",
@@ -49,7 +66,7 @@ def main():
         meta["demo_note"] = note
     print(json.dumps({"name": "%s-%s" % (prop, name), "confirmed": confirmed, "demo_note": note, "kept": bool(good), "first": meta["first_evaluation"],
                       "suite": m.get("suite_summary", "")[-300:] if not confirmed["suite_passes_with_patch"] else "ok",
-                      "demo_out": m.get("demo_output_with_patch", "")[-300:] if not good else ""}, indent=1))
+                      "demo_out": m.get("demo_output_with_patch", "")[-300:] if not good else "", "miri": (m.get("miri_unpatched", ""), m.get("miri_patched", "")) if not good else ""}, indent=1))
     if not good:
         return 1
     dst = os.path.join(HERE, "seeded", "%s-%s" % (prop, name))
